@@ -116,17 +116,14 @@ class Token(Leaf):
 
 @nodedataclass
 class Constant(Leaf):
-    literal: str = ''
+    literal: Any = None
 
     def __post_init__(self):
         super().__post_init__()
-        # NOTE: not "or": the literals 0, 0.0 and False are falsy
-        # note: and not when there is no ast (a model rebuilt from its
-        #   fields): the empty constant `` would become None
-        if self.ast is not None and (
-            self.literal is None
-            or (isinstance(self.literal, str) and not self.literal)
-        ):
+        # NOTE: not "or": the literals 0, 0.0, False and '' are falsy, and
+        #   a model rebuilt from its fields has no ast: Constant(literal='')
+        #   is the empty constant, Constant() is the constant `None`
+        if self.literal is None:
             self.literal = self.ast
 
     def _parse(self, ctx: Ctx) -> Any:
